@@ -176,7 +176,7 @@ func C13(op Opts) *Out {
 				o.Families["seed"]++
 			}
 		}
-		if o.Evaluations%4001 == 0 {
+		if o.Evaluations%401 == 1 {
 			o.Sample(in + " -> " + want)
 		}
 	}
